@@ -1,7 +1,10 @@
 package props
 
 import (
+	"bytes"
 	"fmt"
+	"github.com/robfig/soy/data"
+	"github.com/robfig/soy/parse"
 	"regexp"
 	"strings"
 	"unicode/utf8"
@@ -216,6 +219,52 @@ func c03Values(r *fw.Rand, k int) ref.Value {
 	}
 }
 
+// c03ChangingRegistry: a Tofu that has rendered already, whose registry then grows by a file (template.Registry.Add) or
+// is replaced in place (what Bundle.WatchFiles does on a change): a template that arrives later is escaped like any
+// other.
+func c03ChangingRegistry(ctx *fw.Ctx) *fw.Result {
+	val := []string{"<script>alert(\"1\" + '2')</script> & more", "a<b", "\"q\"", "it's", "x&y"}[ctx.Rng.Intn(5)]
+	first := "{namespace one}\n/** @param x */\n{template .t}\nfirst:{$x}\n{/template}\n"
+	later := "{namespace two}\n/** @param x */\n{template .t}\nlater:{$x}|{call .u}{param x: $x /}{/call}|{call one.t}{param x: $x /}{/call}\n{/template}\n/** @param x */\n{template .u}{$x}{let $w}{$x}{/let}{$w|noAutoescape}{/template}\n"
+	variant := ctx.Rng.Intn(2)
+	reg, err := compileRegistry([]srcFile{{"one.soy", first}}, nil)
+	if err != nil {
+		return &fw.Result{Verdict: fw.Inconclusive, Key: "changing-registry-setup", Msg: err.Error()}
+	}
+	tofu := soyhtml.NewTofu(reg)
+	d := data.Map{"x": data.String(val)}
+	var buf bytes.Buffer
+	if err := tofu.Render(&buf, "one.t", d); err != nil {
+		return &fw.Result{Verdict: fw.Inconclusive, Key: "changing-registry-setup", Msg: err.Error()}
+	}
+	if variant == 0 {
+		tree, perr := parse.SoyFile("two.soy", later)
+		if perr != nil {
+			return &fw.Result{Verdict: fw.Inconclusive, Key: "changing-registry-setup", Msg: perr.Error()}
+		}
+		if aerr := reg.Add(tree); aerr != nil {
+			return &fw.Result{Verdict: fw.Inconclusive, Key: "changing-registry-setup", Msg: aerr.Error()}
+		}
+	} else {
+		reg2, err := compileRegistry([]srcFile{{"one.soy", first}, {"two.soy", later}}, nil)
+		if err != nil {
+			return &fw.Result{Verdict: fw.Inconclusive, Key: "changing-registry-setup", Msg: err.Error()}
+		}
+		*reg = *reg2
+	}
+	buf.Reset()
+	rerr := tofu.Render(&buf, "two.t", d)
+	ctx.Obs("renders_after_the_registry_changed", 1)
+	ctx.Cell("registry-changed-after-first-render")
+	esc := strings.NewReplacer("&", "&amp;", "<", "&lt;", ">", "&gt;", "\"", "&quot;", "'", "&#39;").Replace(val)
+	want := "later:" + esc + "|" + esc + esc + "|first:" + esc
+	if rerr != nil || ref.NormalizeRefs(buf.String()) != ref.NormalizeRefs(want) {
+		return &fw.Result{Verdict: fw.Violated, Key: "escaping:template-added-after-first-render", Case: map[string]interface{}{"value": val, "variant": []string{"Registry.Add", "registry replaced in place"}[variant]},
+			Msg: fmt.Sprintf("a Tofu rendered once, then its registry %s: rendering the new template wrote %q (err %v), want %q", []string{"got another file through Registry.Add", "was replaced in place"}[variant], buf.String(), rerr, want)}
+	}
+	return nil
+}
+
 func init() {
 	nVals := len(gen.HostileStrings())
 	fw.Register(&fw.Prop{
@@ -234,6 +283,11 @@ func init() {
 			return nVals*len(c03Paths) + len(c03AllChains)*len(c03Paths) + 200000
 		},
 		Run: func(ctx *fw.Ctx, i int) fw.Result {
+			if i%197 == 5 {
+				if res := c03ChangingRegistry(ctx); res != nil {
+					return *res
+				}
+			}
 			r := ctx.Rng
 			nSysV := nVals * len(c03Paths)
 			nSysC := len(c03AllChains) * len(c03Paths)
